@@ -67,7 +67,9 @@ CLAIMED = {
          "every produced quantity is on the grid. Products / powers / reflected division are "
          "covered by C02 (build = one constructor call), exchange rates by C10. In-Coq differential "
          "check on all predefined quantized units x 8 modes x tie offsets, currencies, user quanta, "
-         "all operations; oracle recomputes 'exact result rounded once' with its own rounding.",
+         "all operations; oracle recomputes 'exact result rounded once' with its own rounding. "
+         "The constructor's quantisation (the statements that close Quantity.__new__) is "
+         "re-translated from the source on every run and proved to be the model's constructor.",
          "DESIGN.md 5 (C05)", "decimalfp's Decimal(x, 0) is modelled by rnd_ref (validated by C13 on every run)."),
  'C08': None, 'C11': None, 'C12': None, 'C14': None,
  'C13': ("Axiom-free Coq theorems: the repo's own rounding helper (_floordiv_rounded, "
@@ -76,6 +78,8 @@ CLAIMED = {
          "is proved to determine the result uniquely and to depend on the value only; quantize / "
          "round are proved against the quantity model (unit kept, multiple of the converted quantum "
          "selected by explicit or default mode, representation independent, TypeError cases). "
+         "Quantity.quantize and __round__ themselves are re-translated from the source on every run "
+         "and proved equal to the model functions on all inputs. "
          "In-Coq differential check on tie grids x 8 modes x both representations.",
          "DESIGN.md 5 (C13), 3.1", "decimalfp's own rounding (Decimal path) is modelled by rnd_ref and "
          "validated, not proved."),
